@@ -166,7 +166,9 @@ fn main() {
             }
         }
         "faults" => {
-            if args.iter().any(|a| a == "--write") {
+            if args.iter().any(|a| a == "--meta") {
+                faults::meta_campaign();
+            } else if args.iter().any(|a| a == "--write") {
                 faults::write_campaign(arg_u64(&args, "--seed", 1), arg_u64(&args, "--max-runs", 600), arg(&args, "--ops").unwrap(), arg(&args, "--impl").unwrap());
             } else if args.iter().any(|a| a == "--read") {
                 faults::read_campaign(arg_u64(&args, "--seed", 1), arg_u64(&args, "--pairs", 300), arg(&args, "--ops").unwrap(), arg(&args, "--impl").unwrap());
